@@ -622,8 +622,9 @@ FOR_LOOP:
 				// never block
 			}
 		case *kp2p.Packet_PacketMsg:
-			channel, ok := c.channelsIdx[byte(pkt.PacketMsg.ChannelID)]
-			if !ok || channel == nil {
+			channelID := pkt.PacketMsg.ChannelID
+			channel, ok := c.channelsIdx[byte(channelID)]
+			if channelID < 0 || channelID > math.MaxUint8 || !ok || channel == nil {
 				err := fmt.Errorf("unknown channel %X", pkt.PacketMsg.ChannelID)
 				c.Logger.Debug("Connection failed @ recvRoutine", "conn", c, "err", err)
 				c.stopForError(err)
